@@ -1,4 +1,7 @@
 import AdaptiveProofs.Lemmas.Avg
+import AdaptiveProofs.Lemmas.Avg1DBatch
+import Mathlib.Algebra.Order.Field.Rat
+import Mathlib.Analysis.Real.Sqrt
 
 /-!
 # C16 — Averaging learners report the sample statistics of exactly the data they hold
@@ -7,7 +10,11 @@ Theorems over any linearly ordered field `α` (so ℚ and ℝ; IEEE rounding is 
 DESIGN.md 2.2), any `sqrt` function satisfying the stated law, any Student-t quantile
 function, every finite sequence of operations.
 -/
-open Avg in
+-- `h : Inv s` of C16.h / C16.k and the order instances of C16.b are part of the stated
+-- interface although the proofs do not need them
+set_option linter.unusedVariables false
+set_option linter.unusedSectionVars false
+
 section AvgLearner
 variable {α : Type} [Field α] [LinearOrder α] [IsStrictOrderedRing α]
 
@@ -19,13 +26,13 @@ the count is their number and every seed is counted once -/
 theorem Avg.avg_moments (a r : Option α) (m : Nat) (ops : List (Avg.Op α)) :
     let s := Avg.run (Avg.init a r m) ops
     s.sumF = (Avg.vals s).sum ∧ s.sumFsq = ((Avg.vals s).map (fun v => v * v)).sum ∧
-    s.npoints = s.data.length ∧ (s.data.map Prod.fst).Nodup := by
-  sorry
+    s.npoints = s.data.length ∧ (s.data.map Prod.fst).Nodup :=
+  Avg.momInv_run ops _ (Avg.momInv_init a r m)
 
 /-- C16.b  the first value told for a seed is kept; telling a known seed changes nothing -/
 theorem Avg.avg_retell_noop (s : Avg.State α) (k : Nat) (v : α) (h : Avg.hasKey k s.data = true) :
     Avg.tell s k v = s := by
-  sorry
+  simp [Avg.tell, h]
 
 /-- C16.c  variance identity: `sum_f_sq − n·mean²` is the sum of squared deviations from the
 mean, hence non-negative (the code's `< 0` clamp only absorbs rounding) -/
@@ -33,8 +40,8 @@ theorem Avg.avg_variance_identity (s : Avg.State α)
     (h1 : s.sumF = (Avg.vals s).sum) (h2 : s.sumFsq = ((Avg.vals s).map (fun v => v * v)).sum)
     (h3 : s.npoints = s.data.length) (hn : s.npoints ≠ 0) :
     Avg.varNumer s = ((Avg.vals s).map (fun v => (v - Avg.mean s) * (v - Avg.mean s))).sum ∧
-    0 ≤ Avg.varNumer s ∧ Avg.mean s * (s.npoints : α) = (Avg.vals s).sum := by
-  sorry
+    0 ≤ Avg.varNumer s ∧ Avg.mean s * (s.npoints : α) = (Avg.vals s).sum :=
+  ⟨Avg.varNumer_eq s h1 h2 h3 hn, Avg.varNumer_nonneg s h1 h2 h3 hn, Avg.mean_mul s h1 hn⟩
 
 /-- C16.d  `std` is the corrected sample standard deviation: for a `sqrt` with
 `sqrt x * sqrt x = x` on non-negatives, `std² · (n−1) = Σ (v − mean)²`; it is infinite
@@ -46,7 +53,20 @@ theorem Avg.avg_std_sample (sqrt : α → α) (hsq : ∀ x, 0 ≤ x → sqrt x *
     ∀ sd, Avg.std sqrt s = some sd →
       sd * sd * ((s.npoints - 1 : Nat) : α) =
         ((Avg.vals s).map (fun v => (v - Avg.mean s) * (v - Avg.mean s))).sum := by
-  sorry
+  refine ⟨Avg.std_eq_none_iff sqrt s, ?_⟩
+  intro sd hsd
+  have hge : ¬ s.npoints < s.minNpoints := by
+    intro hlt
+    rw [(Avg.std_eq_none_iff sqrt s).2 hlt] at hsd
+    cases hsd
+  have hn : s.npoints ≠ 0 := by omega
+  rw [Avg.std_eq_some sqrt s h1 h2 h3 hn hge] at hsd
+  have hsd' := Option.some.inj hsd
+  have hpos : (0 : α) < ((s.npoints - 1 : Nat) : α) := Nat.cast_pos.2 (by omega)
+  have hnn : 0 ≤ Avg.varNumer s / ((s.npoints - 1 : Nat) : α) :=
+    div_nonneg (Avg.varNumer_nonneg s h1 h2 h3 hn) hpos.le
+  rw [← hsd', hsq _ hnn, div_mul_cancel₀ _ hpos.ne']
+  exact Avg.varNumer_eq s h1 h2 h3 hn
 
 /-- C16.e  the loss is the standard error relative to the tolerances: with `se = std/√n`,
 `loss = max (se/atol) (se/rtol/|mean|)` (a missing tolerance contributes 0, `|mean|` is
@@ -56,7 +76,9 @@ theorem Avg.avg_loss_formula (sqrt : α → α) (s : Avg.State α) (n : Nat) (sd
     Avg.lossN sqrt s n = some (max (Scalar.divOpt (sd / sqrt (n : α)) s.atol)
       (if Avg.mean s = 0 then Scalar.divOpt (sd / sqrt (n : α)) s.rtol
        else Scalar.divOpt (sd / sqrt (n : α)) s.rtol / |Avg.mean s|)) := by
-  sorry
+  unfold Avg.lossN
+  rw [if_neg (by omega), hsd]
+  simp only [Avg.ite_lt_eq_max, Avg.ite_neg_eq_abs]
 
 /-- C16.f  `ask(n)` hands out exactly `n` distinct seeds, none evaluated or pending — for
 the fast path and for every choice the set iteration of the fallback branch can make; and
@@ -64,13 +86,53 @@ such a choice always exists (pigeonhole on `range(n_requested + n)`) -/
 theorem Avg.avg_ask_fresh (s : Avg.State α) (n : Nat) (choice pts : List Nat)
     (h : Avg.askPoints s n choice = some pts) :
     pts.length = n ∧ pts.Nodup ∧ ∀ p ∈ pts, Avg.known s p = false := by
-  sorry
+  unfold Avg.askPoints at h
+  simp only at h
+  split at h
+  · split at h
+    · rename_i hv
+      cases h
+      obtain ⟨hl, hnd, hall⟩ := (Avg.validChoice_iff s n choice).1 hv
+      exact ⟨hl, hnd, fun p hp => Avg.mem_freeSeeds (hall p hp)⟩
+    · cases h
+  · rename_i hany
+    cases h
+    refine ⟨List.length_range', List.nodup_range' 1, ?_⟩
+    intro p hp
+    by_contra hk
+    exact hany (List.any_eq_true.2 ⟨p, hp, by simpa using hk⟩)
 
 theorem Avg.avg_ask_choice_exists (s : Avg.State α) (n : Nat) (h3 : s.npoints = s.data.length) :
     ∃ choice, Avg.validChoice s n choice = true := by
-  sorry
+  refine ⟨(Avg.freeSeeds s n).take n, (Avg.validChoice_iff s n _).2 ⟨?_, ?_, ?_⟩⟩
+  · rw [List.length_take]; exact Nat.min_eq_left (Avg.le_length_freeSeeds s n h3)
+  · exact (Avg.freeSeeds_nodup s n).sublist (List.take_sublist _ _)
+  · intro p hp; exact List.mem_of_mem_take hp
 
 end AvgLearner
+
+/-! Non-vacuity (AverageLearner): a concrete history over ℚ exercising the ignored re-tell,
+a committing ask and `remove_unfinished`; a `sqrt` with the law of C16.d exists over ℝ. -/
+section AvgExamples
+
+private def exAvg : Avg.State ℚ :=
+  Avg.run (Avg.init none (some 1) 2)
+    [.tell 0 1, .tell 1 3, .tell 0 7, .askCommit [2, 3], .tell 2 5, .removeUnfinished]
+
+example : exAvg.sumF = 9 ∧ exAvg.sumFsq = 35 ∧ exAvg.npoints = 3 ∧ Avg.mean exAvg = 3 ∧
+    Avg.varNumer exAvg = 8 ∧ Avg.hasKey 0 exAvg.data = true ∧ Avg.vals exAvg = [1, 3, 5] := by
+  decide +kernel
+
+example : Avg.askPoints exAvg 2 [] = some [3, 4] := by decide +kernel
+
+/-- the fallback branch: seed 4 is pending, so `range' 4 2` is not fresh; the free seeds of
+`range 6` are 3 and 5, and only a choice among them is accepted -/
+example : Avg.askPoints (Avg.tellPending exAvg 4) 2 [5, 3] = some [5, 3] ∧
+    Avg.askPoints (Avg.tellPending exAvg 4) 2 [3, 4] = none := by decide +kernel
+
+example : ∀ x : ℝ, 0 ≤ x → Real.sqrt x * Real.sqrt x = x := fun _ hx => Real.mul_self_sqrt hx
+
+end AvgExamples
 
 section AvgLearner1D
 variable {α : Type} [Field α] [LinearOrder α] [IsStrictOrderedRing α]
@@ -90,8 +152,8 @@ def Avg1D.Inv (s : Avg1D.State α) : Prop :=
 /-- C16.g  single tells keep the invariant: value = mean of the samples, counts match,
 each seed once, under-sampled abscissae are tracked -/
 theorem Avg1D.avg1d_tell_inv (sqrt : α → α) (tq : Nat → α) (s : Avg1D.State α) (h : Avg1D.Inv s)
-    (seed : Nat) (x y : α) : Avg1D.Inv (Avg1D.tell sqrt tq s seed x y) := by
-  sorry
+    (seed : Nat) (x y : α) : Avg1D.Inv (Avg1D.tell sqrt tq s seed x y) :=
+  Avg1D.stGood_tell sqrt tq s h seed x y
 
 /-- C16.h  the error after a re-sampling tell is the Student-t half-width
 `t(n−1) · sqrt(Σ(y−ȳ)²/(n−1)/n)` of the samples now held -/
@@ -102,7 +164,9 @@ theorem Avg1D.avg1d_error_formula (sqrt : α → α) (tq : Nat → α) (s : Avg1
       q.samples = p.samples ++ [(seed, y)] ∧
       q.err = some (tq (q.n - 1) * sqrt ((((q.samples.map Prod.snd).map
         (fun v => (v - q.mean) * (v - q.mean))).sum / ((q.n - 1 : Nat) : α)) / (q.n : α))) := by
-  sorry
+  refine ⟨_, Avg1D.find?_tell_resample sqrt tq s seed x y p hp hseed, rfl, rfl, ?_⟩
+  rw [← Avg1D.calcError_eq]
+  rfl
 
 /-- C16.i  telling many fresh samples at once gives the same value, count, samples and error
 as telling them one by one -/
@@ -113,15 +177,15 @@ theorem Avg1D.avg1d_batch_eq_single (sqrt : α → α) (tq : Nat → α) (s : Av
     let batch := Avg1D.tellManyAtPoint sqrt tq s x mapping
     let single := mapping.foldl (fun s kv => Avg1D.tell sqrt tq s kv.1 x kv.2) s
     ∃ pb ps, Avg1D.find? batch x = some pb ∧ Avg1D.find? single x = some ps ∧
-      pb.mean = ps.mean ∧ pb.n = ps.n ∧ pb.samples = ps.samples ∧ pb.err = ps.err := by
-  sorry
+      pb.mean = ps.mean ∧ pb.n = ps.n ∧ pb.samples = ps.samples ∧ pb.err = ps.err :=
+  Avg1D.batch_eq_single_aux sqrt tq s h x mapping hne hnd hfresh
 
 /-- C16.j  batches keep the invariant as well -/
 theorem Avg1D.avg1d_batch_inv (sqrt : α → α) (tq : Nat → α) (s : Avg1D.State α) (h : Avg1D.Inv s)
     (x : α) (mapping : List (Nat × α)) (hnd : (mapping.map Prod.fst).Nodup)
     (hfresh : ∀ p, Avg1D.find? s x = some p → ∀ k ∈ mapping.map Prod.fst, k ∉ p.samples.map Prod.fst) :
-    Avg1D.Inv (Avg1D.tellManyAtPoint sqrt tq s x mapping) := by
-  sorry
+    Avg1D.Inv (Avg1D.tellManyAtPoint sqrt tq s x mapping) :=
+  Avg1D.stGood_tellMany sqrt tq s h x mapping hnd hfresh
 
 /-- C16.k  while some abscissa is under-sampled every request re-samples a member of the
 under-sampled set, with the next unused seeds -/
@@ -131,6 +195,45 @@ theorem Avg1D.avg1d_ask_serves_undersampled (s : Avg1D.State α) (h : Avg1D.Inv 
         (∀ p, Avg1D.find? s c = some p → k = p.n) ∧ (Avg1D.find? s c = none → k = 0)) ∧
     (c ∉ s.under → Avg1D.askUnder s n c = none) ∧
     (∀ p ∈ s.pts, p.n < s.minSamples → s.under ≠ []) := by
-  sorry
+  have hemp : s.under.isEmpty = false := by
+    cases hu : s.under with
+    | nil => exact absurd hu hne
+    | cons a r => rfl
+  refine ⟨?_, ?_, fun _ _ _ => hne⟩
+  · intro hc
+    unfold Avg1D.askUnder
+    simp only [hemp, Bool.false_eq_true, if_false, hc, if_true]
+    cases hf : Avg1D.find? s c with
+    | none => exact ⟨0, rfl, fun p hp => (by cases hp), fun _ => rfl⟩
+    | some p => exact ⟨p.n, rfl, fun q hq => (by cases hq; rfl), fun hq => (by cases hq)⟩
+  · intro hc
+    unfold Avg1D.askUnder
+    simp only [hemp, Bool.false_eq_true, if_false, hc]
 
 end AvgLearner1D
+
+/-! Non-vacuity (AverageLearner1D): the empty learner satisfies `Inv` (so by C16.g/C16.j every
+reachable state does), and a concrete history over ℚ (`sqrt := id`, `tq := 1`). -/
+section Avg1DExamples
+
+private def ex1D0 : Avg1D.State ℚ := { minSamples := 2, maxSamples := 5, neighborSampling := 1 / 2 }
+private def ex1D1 : Avg1D.State ℚ := Avg1D.tell id (fun _ => 1) ex1D0 0 (1 / 2) 3
+private def ex1D2 : Avg1D.State ℚ := Avg1D.tell id (fun _ => 1) ex1D1 1 (1 / 2) 5
+
+example : Avg1D.Inv ex1D0 := by simp [Avg1D.Inv, ex1D0]
+
+example : Avg1D.Inv ex1D2 :=
+  Avg1D.avg1d_tell_inv _ _ _ (Avg1D.avg1d_tell_inv _ _ _ (by simp [Avg1D.Inv, ex1D0]) _ _ _) _ _ _
+
+example : (Avg1D.find? ex1D2 (1 / 2)).map (fun p => (p.mean, p.n, p.samples, p.err)) =
+    some (4, 2, [(0, 3), (1, 5)], some 1) := by decide +kernel
+
+example : ex1D1.under = [1 / 2] ∧ ex1D2.under = [] ∧
+    Avg1D.askUnder ex1D1 2 (1 / 2) = some [(1, 1 / 2), (2, 1 / 2)] ∧
+    Avg1D.askUnder ex1D1 2 (1 / 3) = none := by decide +kernel
+
+example : (Avg1D.find? (Avg1D.tellManyAtPoint id (fun _ => 1) ex1D0 (1 / 2) [(0, 3), (1, 5), (2, 7)])
+      (1 / 2)).map (fun p => (p.mean, p.n, p.samples, p.err)) =
+    some (5, 3, [(0, 3), (1, 5), (2, 7)], some (4 / 3)) := by decide +kernel
+
+end Avg1DExamples
